@@ -65,10 +65,10 @@ SCHED_TECH = "schedule fuzzing: proptest generates (scenario bytes, schedule byt
 def sched(ref, text):
     return dict(engine="E4 schedule explorer", ref=ref, technique=SCHED_TECH, text=text, note=SCHED_NOTE)
 CLAIMED.update({
- "C11": sched("5/C11", "1-3 worker threads wake 1-4 wakers (same bitmap word / different words / different bitmaps) while the main thread collects with poll_wake() only in response to poll-waker callbacks; a logical clock stamps each wake() and each handler invocation, and at quiescence every wake() that returned must have a handler invocation of its waker stamped after the wake began (spurious calls allowed). Each scenario runs under a generated byte schedule and 8-24 seeded random/PCT schedules. The 'publishes the waker's writes' / C11-reordering clause is outside what sequentially consistent exploration can decide."),
+ "C11": sched("5/C11", "1-3 worker threads wake 1-4 wakers (same bitmap word / different words / different bitmaps) while the main thread collects with poll_wake() only in response to poll-waker callbacks; a logical clock stamps each wake() and each handler invocation, and at quiescence every wake() that returned must have a handler invocation of its waker stamped after the wake began (spurious calls allowed). For a Waker the main thread still holds at quiescence the serving invocation must be a deleted=false one stamped before quiescence. Each scenario runs under a generated byte schedule and 8-24 seeded random/PCT schedules. The 'publishes the waker's writes' / C11-reordering clause is outside what sequentially consistent exploration can decide."),
  "C12": sched("5/C12", "Worker and main threads drop references to wakers (also by unwinding from a panicking worker) racing with wake() and poll_wake(); main creates new wakers after each observed deleted=true so slots are reused and may wake them; per handler: deleted=true exactly once, as the last call, not before the last reference was dropped, wakes preceding the drop are served, and a new waker's handler never sees the old waker's deleted=true and still gets its own wakes."),
- "C13": sched("5/C13", "1-3 sender threads (1-2 messages, is_closed polls) race with main-thread collection and with the ChannelGuard being dropped before, between or after collections; forwarded messages must be a duplicate-free subset of the accepted ones in per-sender order, equal to all accepted ones when the guard is never dropped (a stranded message shows as missing at quiescence), and after the guard drop returned nothing is forwarded, send returns false and is_closed returns true."),
- "C14": sched("5/C14", "A scripted worker (recv/send/cancel/yield, panic inserted at any script position) runs inside PipedThread::spawn against a main script of sends, poll responses and the drop; in the echo shape main waits for every reply before dropping, so a lost condvar/waker notification becomes a deadlock; worker-side recv results must be main's sends in order exactly once then None, fwd_recv the worker's sends in order exactly once, fwd_term exactly once, last, with None or exactly the panic text, and after the drop send/cancel report cancellation."),
+ "C13": sched("5/C13", "1-3 sender threads (1-2 messages, is_closed polls; in about 5% of the scenarios also a burst of 5-1025 messages sent by the main thread behind one wake-up) race with main-thread collection and with the ChannelGuard being dropped before, between or after collections; forwarded messages must be a duplicate-free subset of the accepted ones in per-sender order, equal to all accepted ones when the guard is never dropped (a stranded message shows as missing at quiescence), and after the guard drop returned nothing is forwarded, send returns false and is_closed returns true."),
+ "C14": sched("5/C14", "A scripted worker (recv/send/cancel/yield, a run of 5-8 sends in a quarter of the free scripts, panic inserted at any script position) runs inside PipedThread::spawn against a main script of sends, poll responses and the drop; in the echo shape main waits for every reply before dropping, so a lost condvar/waker notification becomes a deadlock; worker-side recv results must be main's sends in order exactly once then None, fwd_recv the worker's sends in order exactly once, fwd_term exactly once, last, with None or exactly the panic text, and after the drop send/cancel report cancellation."),
 })
 
 NOT_YET = "check not built yet in this session (planned, see DESIGN.md section 5); not claimed until it exists and passes its sensitivity self-test"
